@@ -531,6 +531,49 @@ int main(int argc, char** argv)
               << (WIFSIGNALED(st) ? "child-killed-by-signal=" + std::to_string(WTERMSIG(st)) : "child-exit=" + std::to_string(WEXITSTATUS(st))) << "\n";
     return 0;
   }
-  std::cerr << "usage: h3_math gen <seed> <math|bounded|unbounded|transit> <quick|thorough> | replay <file> | f32\n";
+  if (mode == "hang")
+  {
+    // observations (not property violations): the doubling loop of UnboundedSPSCQueue::_handle_full_queue in a child process with
+    // a 2 s alarm. A: a record above 2^63 bytes on an ordinary node. B: a refused reservation on a node of capacity 2^63
+    // (only constructible on a tree without the F32 repair; positions are advanced with finish_write, nothing is written).
+    for (int c = 0; c < 2; ++c)
+    {
+      std::cout.flush();
+      pid_t const pid = fork();
+      if (pid == 0)
+      {
+        alarm(2);
+        try
+        {
+          if (c == 0)
+          {
+            UnboundedSPSCQueue q{1024, ~static_cast<size_t>(0)};
+            std::byte* p = q.prepare_write((static_cast<size_t>(1) << 63) + 1);
+            _exit(p ? 10 : 11);
+          }
+          UnboundedSPSCQueue q{~static_cast<size_t>(0), ~static_cast<size_t>(0)};
+          if (q.producer_capacity() != (static_cast<size_t>(1) << 63)) { _exit(12); }
+          q.finish_write(static_cast<size_t>(1) << 63);   // the node is full (positions only)
+          std::byte* p = q.prepare_write(1);
+          _exit(p ? 10 : 11);
+        }
+        catch (quill::QuillError const&)
+        {
+          _exit(13);
+        }
+      }
+      int st = 0;
+      waitpid(pid, &st, 0);
+      std::cout << (c == 0 ? "hang A node=1024 max=SIZE_MAX prepare_write(2^63+1)" : "hang B node=2^63 (request SIZE_MAX) full, prepare_write(1)") << " => ";
+      if (WIFSIGNALED(st)) { std::cout << "no-return-within-2s child-killed-by-signal=" << WTERMSIG(st) << "\n"; }
+      else
+      {
+        int const e = WEXITSTATUS(st);
+        std::cout << (e == 10 ? "returned-grant" : e == 11 ? "returned-null" : e == 12 ? "node-capacity-not-2^63" : e == 13 ? "QuillError" : "exit") << " code=" << e << "\n";
+      }
+    }
+    return 0;
+  }
+  std::cerr << "usage: h3_math gen <seed> <math|bounded|unbounded|transit> <quick|thorough> | replay <file> | f32 | hang\n";
   return 2;
 }
